@@ -245,7 +245,14 @@ impl<KG: KeGroup> Remote<KG> {
         let real = PrivateKey::<KG>::deserialize(sk).map_err(ie)?;
         // decoy handle: a valid private key of the group derived from the real key bytes
         let decoy = KG::derive_auth_keypair::<CS>(GenericArray::clone_from_slice(sk)).map_err(ie)?;
-        let handle = KG::serialize_sk(decoy);
+        let mut handle = KG::serialize_sk(decoy);
+        if HANDLE_STYLE.with(|h| *h.borrow()) == 1 {
+            // opaque: 0xff in the first and last byte is no valid scalar of any supported group (>= the order in either
+            // byte order; not clamped for Curve25519); the middle still identifies the key
+            let n = handle.len();
+            handle[0] = 0xff;
+            handle[n - 1] = 0xff;
+        }
         HANDLES.with(|h| h.borrow_mut().insert(handle.to_vec(), sk.to_vec()));
         Ok(Remote { real, handle })
     }
@@ -270,6 +277,14 @@ impl<KG: KeGroup> SecretKey<KG> for Remote<KG> {
         let real = HANDLES.with(|h| h.borrow().get(input).cloned()).ok_or(InternalError::Custom(RemoteErr(404)))?;
         Ok(Remote { real: PrivateKey::deserialize(&real).map_err(InternalError::into_custom)?, handle: GenericArray::clone_from_slice(input) })
     }
+}
+thread_local! {
+    /// what the external key serializes to: 0 = a decoy (a valid private key of the group, see Remote), 1 = an opaque
+    /// handle that is NOT a private-key encoding of any group (first and last byte 0xff)
+    static HANDLE_STYLE: RefCell<u8> = const { RefCell::new(0) };
+}
+pub fn remote_handle_style(style: u8) {
+    HANDLE_STYLE.with(|h| *h.borrow_mut() = style);
 }
 fn sk_arm(n: Option<usize>) {
     SK_LOG.with(|l| l.borrow_mut().clear());
